@@ -395,6 +395,12 @@ def case_from_dict(r, add, note):
         if st[0] == "P":
             t.add_file(norm(st[1]), pbo_pack(None if st[2] is None else st[2].encode("latin-1"),
                                              [(n.encode("latin-1"), c.encode("latin-1")) for n, c in st[3]]).decode("latin-1"))
+    if r["kind"] == "infoseq":
+        subs = [tuple(x) for x in r["requests"]]
+        for rq, cp, cv in subs:
+            add("info", t, setup, rq, cp, cv)
+        add("infoseq", t, setup, "|".join("%s,%s,%s" % (hx(a), hx(b), hx(c_)) for a, b, c_ in subs), note=json.dumps(subs))
+        return
     add(r["kind"], t, setup, r["req"], r.get("curp", ""), r.get("curv", ""), note=note)
 
 
@@ -427,6 +433,24 @@ def gen_cases(rng, add, scale):
         for _ in range(2):
             curp, curv = rand_current(rng, t, maps)
             add("info", t, setup, rand_relative(rng) if rng.random() < 0.85 else rand_request(rng, t, maps), curp, curv)
+        # the same spelling asked from several places, one after the other, on one file system object: every answer must
+        # be the answer a fresh object gives (resolution has no memory); the single requests are ordinary info cases too
+        if rng.random() < 0.5:
+            req = rand_relative(rng) if rng.random() < 0.8 else rand_request(rng, t, maps)
+            if "|" not in req and "," not in req:
+                curs = [rand_current(rng, t, maps) for _ in range(rng.choice([2, 3]))]
+                files = sorted(t.files)
+                if files and rng.random() < 0.7:
+                    # two files in different directories, both without a virtual path (files named on the command line)
+                    curs = [(rng.choice(files), ""), (rng.choice(files), "")] + curs[:1]
+                if rng.random() < 0.5:
+                    curs.append(("", ""))
+                if rng.random() < 0.3:
+                    curs.append(curs[0])
+                subs = [(req, cp, cv) for cp, cv in curs if "|" not in cp + cv and "," not in cp + cv]
+                for rq, cp, cv in subs:
+                    add("info", t, setup, rq, cp, cv)
+                add("infoseq", t, setup, "|".join("%s,%s,%s" % (hx(a), hx(b), hx(c_)) for a, b, c_ in subs), note=json.dumps(subs))
     # script operators
     for i in range(110 * scale):
         t = rand_tree(rng)
@@ -767,10 +791,38 @@ def main(replay=None):
 
     lines = [c["line"] for c in cases]
     rc, impl, err = V.run_lines_parallel([himpl], lines, timeout=3000)
-    rc2, model, err2 = V.run_lines_parallel([drv], lines, timeout=3000)
+    # the model has no memory either: a sequence is judged against the single requests (implementation and model)
+    mlines = [(line("fs", Tree(), [], "a", "b") if c["kind"] == "infoseq" else c["line"]) for c in cases]
+    rc2, model, err2 = V.run_lines_parallel([drv], mlines, timeout=3000)
+    single = {}
+    for c, il in zip(cases, impl):
+        if c["kind"] == "info":
+            single[(c["tree"].field(), str(c["setup"]), c["req"], c["curp"], c["curv"])] = il
 
     stats = {"kinds": {}, "nontrivial": set(), "samples": [], "ub_unobserved": 0, "as_is_only": {}}
     for c, il, ml in zip(cases, impl, model):
+        if c["kind"] == "infoseq":
+            stats["kinds"]["infoseq"] = stats["kinds"].get("infoseq", 0) + 1
+            subs = json.loads(c["note"])
+            got = il.split(" || ")
+            rep = {"kind": "infoseq", "requests": subs, "maps": c["maps"], "impl": il, "files": c["tree"].files, "dirs": sorted(c["tree"].dirs),
+                   "setup": [list(x) for x in c["setup"]], "impl_line": il}
+            if il.split("\t")[0] in BAD or len(got) != len(subs):
+                run.violation("a sequence of requests on one file system object did not come back: " + il[:80], rep)
+                continue
+            for k, ((rq, cp, cv), g) in enumerate(zip(subs, got)):
+                alone = single.get((c["tree"].field(), str(c["setup"]), rq, cp, cv))
+                if alone is None:
+                    continue
+                if alone.replace("\t", " ") != g:
+                    rep["position"] = k
+                    rep["alone"] = alone
+                    run.violation("request #%d of a sequence on one file system object is answered differently from the same request on a "
+                                  "fresh object (%r from %r / %r): resolution depends on earlier requests" % (k + 1, rq, cp, cv), rep)
+                    break
+            else:
+                stats["nontrivial"].add(("infoseq", str(c["maps"]), c["note"]))
+            continue
         judge(run, c, il, ml, stats)
     cli_cases(run, stats)
 
